@@ -94,6 +94,36 @@ def rule_oss_name(ctx, cfg, F, backend):
                             R.violate("%s:bind-path-origin" % new.path, "the address bound does not derive from the temporary directory", new.path, new.loc(binds[0][0]), config=cfg)
 
 
+def rule_oss_addr(ctx, cfg, F):
+    R = ctx.rule("OSS-ADDR", "client and server agree on the address of a name: connect() and OsIpcOneShotServer::new() both pass the result of new_sockaddr_un(name) to the OS, and connect() "
+                 "reports failure only after the OS refused (every Err exit lies behind libc::socket / libc::connect): a name a listening server handed out is never rejected by a client-side test")
+    new = F.fns.get("platform::unix::OsIpcOneShotServer::new")
+    con = F.fns.get("platform::unix::OsIpcSender::connect")
+    if not new or not con:
+        R.violate("anchor-missing:connect", "connect / OsIpcOneShotServer::new not found", config=cfg)
+        return
+    n = 0
+    for f, sysc in ((new, "libc::bind"), (con, "libc::connect")):
+        for b, t in f.calls_to(sysc):
+            n += 1
+            if "platform::unix::new_sockaddr_un" in _deep_chain(f, t["args"][1]):
+                R.ok("%s: %s gets the address new_sockaddr_un built" % (f.path, sysc), f.loc(b), cfg)
+            else:
+                R.violate("%s:address-origin" % f.path, "%s in %s does not use the address new_sockaddr_un builds from the name" % (sysc, f.path), f.path, f.loc(b), config=cfg)
+    R.count("address_uses[%s]" % cfg, n)
+    gates = {b for b, t in con.calls() if strip_generics(callee_name(t)) in ("libc::socket", "libc::connect")}
+    before = con.reachable(0, avoid=gates)
+    bad = None
+    for b in sorted(before - gates):
+        for si, st in enumerate(con.stmts(b)):
+            if st["s"] == "assign" and st["rv"]["r"] == "agg" and (st["rv"]["kind"].get("adt") or "") == "std::result::Result" and st["rv"]["kind"].get("variant") == "Err":
+                bad = bad or (b, si)
+    if bad:
+        R.violate("%s:rejects-before-asking-the-os" % con.path, "connect() can fail before socket()/connect(): a test on the name that the binding side does not make turns a live server's name into an error", con.path, con.loc(*bad), config=cfg)
+    else:
+        R.ok("connect(): every Err exit lies behind socket()/connect()", con.loc(0), cfg)
+
+
 def _deep_chain(f, operand, limit=200):
     """names of all calls on the backward chain, following every argument (not only transparent ones)"""
     out = set()
